@@ -91,10 +91,10 @@ func VP_C14_RecordBytesArgon2id() {
 	vpAssert("base64url-fields", serr == nil && derr == nil)
 	vpAssert("salt-and-digest-canonical-base64url", f[3] == base64.URLEncoding.EncodeToString(salt) && f[4] == base64.URLEncoding.EncodeToString(digest))
 	vpAssert("salt-size-16", len(salt) == 16)
-	vpAssert("salt-is-fresh-random", vpFreshBytes(salt))
+	vpAssert("model: salt-is-fresh-random", vpFreshBytes(salt))
 	want := argon2.IDKey([]byte(pw), salt, tm, mem, thr, ln)
 	vpAssert("digest-is-argon2id-of-configured-parameters", vpBytesEq(digest, want))
-	vpAssert("password-not-in-store", vpSecretFree(raw))
+	vpAssert("model: password-not-in-store", vpSecretFree(raw))
 	vpCover("end")
 }
 
@@ -134,7 +134,7 @@ func VP_C14_RecordBytesScrypt() {
 	digest, derr := base64.URLEncoding.DecodeString(f[4])
 	vpAssert("base64url-fields", serr == nil && derr == nil)
 	vpAssert("salt-size-32", len(salt) == 32)
-	vpAssert("salt-is-fresh-random", vpFreshBytes(salt))
+	vpAssert("model: salt-is-fresh-random", vpFreshBytes(salt))
 	er, ep := r, p
 	if er <= 0 {
 		er = 8
@@ -147,7 +147,7 @@ func VP_C14_RecordBytesScrypt() {
 	m := hmac.New(sha256.New, key)
 	m.Write(k)
 	vpAssert("digest-is-hmac-sha256-over-scrypt-of-configured-parameters", vpBytesEq(digest, m.Sum(nil)))
-	vpAssert("password-and-hmac-key-not-in-store", vpSecretFree(raw))
+	vpAssert("model: password-and-hmac-key-not-in-store", vpSecretFree(raw))
 	vpCover("end")
 }
 
